@@ -1,12 +1,18 @@
 #!/bin/bash
-# usage: tools/tryseed.sh <patch.diff> <CHECK> [tier]   -- apply patch to /repo, run check, always undo
+# usage: tools/tryseed.sh <patch.diff> <CHECK> [tier]
+# Applies the patch to a scratch worktree of /repo's HEAD (never to /repo itself, so background
+# runs are not disturbed), runs the check with VF_REPO pointing there, removes the worktree.
 set -u
-patch="$1"; check="$2"; tier="${3:-quick}"
-cd /repo || exit 9
-if [ -n "$(git status --porcelain -uno)" ]; then echo "repo dirty, refusing"; exit 9; fi
-git apply "$patch" || { echo "patch does not apply"; exit 9; }
+patch="$(readlink -f "$1")"; check="$2"; tier="${3:-quick}"
+wt="/tmp/vf-try-$$"
+git -C /repo worktree add -q --detach "$wt" HEAD || exit 9
+trap 'git -C /repo worktree remove --force "$wt" >/dev/null 2>&1' EXIT
+if ! git -C "$wt" apply "$patch" 2>/dev/null; then
+  if ! git -C "$wt" apply --3way "$patch" >/dev/null 2>&1; then echo "patch does not apply to HEAD"; exit 9; fi
+fi
 cd /verif
-/venv/bin/python -m vf.run "$check" --tier "$tier" 2>&1 | grep -v "^  key=" | tail -${TAILN:-6}
+VF_REPO="$wt" /venv/bin/python -m vf.run "$check" --tier "$tier" 2>&1 | grep -v "^  key=" | tail -${TAILN:-4}
 rc=${PIPESTATUS[0]}
-git -C /repo checkout -- . 
+git -C /verif checkout -q -- "evidence/$check.json" 2>/dev/null
 echo "exit=$rc"
+exit $rc
